@@ -299,6 +299,52 @@ def ob_pow_float(bi, a: Union[float, int]) -> Optional[bool]:
     return is_excel_scalar(r)
 
 
+# ------------------------------------------------------------------ binary64 comparisons (Engine K)
+def kb_cmp_binary64(E):
+    """over all finite binary64 pairs the real ExcelCmp gives exactly one of < = > (no tolerance in the order)"""
+    import z3
+    import pycel.excelutil as U
+    from vf.kengine import strings as KS
+    from vf.kengine.sym import SBool, SFloat
+    a, b = E.fp("a"), E.fp("b")
+    if E.concrete is None:
+        E.add(z3.And(z3.Not(z3.fpIsNaN(a.e)), z3.Not(z3.fpIsInf(a.e)), z3.Not(z3.fpIsNaN(b.e)), z3.Not(z3.fpIsInf(b.e))))
+
+        def fmax(x, y):
+            return SFloat(z3.If(z3.fpGEQ(x.e, y.e), x.e, y.e), E)
+
+        def k_isclose(x, y, *, rel_tol=1e-09, abs_tol=0.0):
+            if not isinstance(x, SFloat) and not isinstance(y, SFloat):
+                import math
+                return math.isclose(x, y, rel_tol=rel_tol, abs_tol=abs_tol)
+            x = x if isinstance(x, SFloat) else SFloat(z3.FPVal(float(x), z3.Float64()), E)
+            y = y if isinstance(y, SFloat) else SFloat(z3.FPVal(float(y), z3.Float64()), E)
+            if x == y:
+                return True
+            diff = abs(x - y)
+            bound = fmax(fmax(abs(x), abs(y)) * rel_tol, SFloat(z3.FPVal(float(abs_tol), z3.Float64()), E))
+            return diff <= bound
+
+        class KMathX:
+            def __getattr__(self, n):
+                import math
+                return getattr(math, n)
+            isclose = staticmethod(k_isclose)
+        ctx = KS.patched(U, {"ERROR_CODES": KS.OrSet(U.ERROR_CODES), "math": KMathX()})
+    else:
+        import contextlib
+        import math
+        if not (math.isfinite(a) and math.isfinite(b)):
+            return None
+        ctx = contextlib.nullcontext()
+    with ctx:
+        ca, cb = U.ExcelCmp(a), U.ExcelCmp(b)
+        lt, eq, gt = bool(ca < cb), bool(ca == cb), bool(ca > cb)
+        le, ge, ne = bool(ca <= cb), bool(ca >= cb), bool(ca != cb)
+    one = (lt + eq + gt) == 1
+    return one and le == (not gt) and ge == (not lt) and ne == (not eq)
+
+
 def obligations(tier):
     obs = []
 
@@ -335,6 +381,7 @@ def obligations(tier):
     add("cmp_float", "ob_cmp_float", (), 90, "real", group="cmp")
     add("cmp_case", "ob_cmp_case", (), 90, group="cmp")
     add("cmp_trans", "ob_cmp_trans", (), 300 if tier == "thorough" else 120, group="cmp")
+    obs.append(Obligation(PROP, "cmp_binary64", __name__, "kb_cmp_binary64", (), timeout=300, engine="K", group="cmp"))
     add("pow_int", "ob_pow_int", (), 200, group="pow")
     for bi in range(len(POW_EXPONENTS)):
         e = POW_EXPONENTS[bi]
